@@ -92,6 +92,7 @@ SPEC = {
         'AITB.POMDP3.fibStepW_trunc_sound', 'AITB.POMDP3.promisingVal_trunc_ge', 'AITB.POMDP3.SoundT_step', 'AITB.POMDP3.anytimeT_sound',
         'AITB.POMDP3.truncW_residual', 'AITB.POMDP3.libCut_residual', 'AITB.POMDP3.massCut_residual', 'AITB.POMDP3.truncSlack_pays',
         'AITB.POMDP3.mass_bstep_le', 'AITB.POMDP3.pointBackup_cut_sound', 'AITB.POMDP3.cut_table_residuals', 'AITB.POMDP3.libCut_diff', 'AITB.POMDP3.pointBackup_src_cut_sound',
+        'AITB.POMDP3.checkEqualSmall_zero_le', 'AITB.POMDP3.promisingActSaw_is_poolAddT', 'AITB.POMDP3.promisingActSaw_upper_trunc', 'AITB.POMDP3.backup_chain_cut_sound',
         'AITB.POMDP3.mW_valid', 'AITB.POMDP3.mW_ref_superSol', 'AITB.POMDP3.ΓW_sound',
     ],
     'gen_obligations': ['AITB.POMDP3.src_blind_start_is_min', 'AITB.POMDP3.src_fib_start_is_max', 'AITB.POMDP3.src_fib_inner_is_max', 'AITB.POMDP3.src_cons_no_skip', 'AITB.POMDP3.src_saw_is_repaired'],
